@@ -514,6 +514,11 @@ def run(ctx):
         sw, cw, coeffs, words, ops, H, lam = got
         order = cw + sw
         form = int(r.integers(0, 2))
+        if r.random() < 0.35:
+            # complex LCU coefficients: the block is still sum_k c_k U_k / sum_k |c_k| (the phases are absorbed into the unitaries)
+            coeffs = [complex(c * np.exp(1j * r.uniform(-np.pi, np.pi))) for c in coeffs]
+            H = sum(c * pauli_word_matrix(w, sw) for c, w in zip(coeffs, words))
+            ctx.count("prepselprep.complex_coeffs")
         mk = (lambda: qp.PrepSelPrep(qp.dot(coeffs, ops), control=cw)) if form == 0 else (lambda: qp.PrepSelPrep(qp.ops.LinearCombination(coeffs, ops), control=cw))
         compare("PrepSelPrep", mk, order, H / lam, {"coeffs": coeffs, "words": [str(w) for w in words], "form": form}, block=2 ** len(sw))
 
